@@ -9,6 +9,7 @@ import (
 	"fmt"
 	"io"
 	"log"
+	"strings"
 	"sync"
 	"time"
 
@@ -72,8 +73,16 @@ func runC12RealBurst(run *Run, iter int, n int) (out []*c01Result) {
 	defer A.Shutdown()
 	to := memberlist.Address{Addr: B.LocalNode().Address(), Name: B.LocalNode().Name}
 	sent := map[string]bool{}
+	// (n >= 900: more than a megabyte arrives while the first messages still wait for the application)
+	filler := ""
+	if n >= 900 {
+		filler = strings.Repeat("-filler-0123456789", 66)
+	}
 	send := func(i int) {
 		p := fmt.Sprintf("burst-%d-message-%04d-%s", iter, i, "0123456789abcdef0123456789abcdef"[:8+i%24])
+		if filler != "" {
+			p += fmt.Sprintf("%s-%04d", filler, i)
+		}
 		sent[p] = true
 		_ = A.SendToAddress(to, []byte(p))
 	}
